@@ -214,7 +214,7 @@ def _fuzz(args):
     r = random.Random(seed)
     drv = D.EngineDriver(intern=E.new_interner())
     cert = S.make_cert(1, "client")
-    res = {"frames": 0, "rejected": 0, "accepted": 0, "viol": [], "resp": [], "kinds": {}, "traces": []}
+    res = {"frames": 0, "rejected": 0, "accepted": 0, "viol": [], "resp": [], "kinds": {}, "traces": [], "taken": []}
     try:
         sd = seeds(drv.intern)
         query = A.encode(A.build_request(D.one("Query", {}), drv.intern), A.KV((1, 2)))
@@ -259,6 +259,9 @@ def _fuzz(args):
                     entered = marks[i] - prev
                     prev = marks[i]
                     res["kinds"][kind] = res["kinds"].get(kind, 0) + 1
+                    if (entered or kind != "InvalidMessage") and len(res["taken"]) < 150 and len(f) < 3000:
+                        res["taken"].append({"id": "w%d:c%d:f%d" % (wid, ci, i), "kind": "request_exec", "bytes": f, "reqver": -1,
+                                             "executed": bool(entered), "cls": kind})
                     if rej[i]:
                         res["rejected"] += 1
                         if kind != "InvalidMessage":
@@ -344,6 +347,63 @@ def session_machine(run, quick):
                                                       "engine entered after failed authentication": "EngineOnlyServed violated"}
 
 
+def _ttlv(tag, typ, value):
+    pad = (8 - len(value) % 8) % 8 if typ not in (1,) else 0
+    return tag.to_bytes(3, "big") + bytes([typ]) + struct.pack("!I", len(value)) + value + b"\x00" * pad
+
+
+def register_opaque_frame(n):
+    """A Register request for an opaque object of n bytes, assembled by hand (the library's encoder needs tens of seconds per
+    MiB); compared with the library's own encoding for a small n before use."""
+    val = bytes((i * 7 + 3) % 251 for i in range(n))
+    i4 = lambda v: struct.pack("!I", v) + b"\x00" * 4
+    hdr = _ttlv(0x420077, 1, _ttlv(0x420069, 1, _ttlv(0x42006A, 2, struct.pack("!I", 1)) + _ttlv(0x42006B, 2, struct.pack("!I", 2)))
+                + _ttlv(0x42000D, 2, struct.pack("!I", 1)))
+    obj = _ttlv(0x42005B, 1, _ttlv(0x420059, 5, struct.pack("!I", 0x80000000)) + _ttlv(0x42005A, 8, val))
+    payload = _ttlv(0x420079, 1, _ttlv(0x420057, 5, struct.pack("!I", 8)) + _ttlv(0x420091, 1, b"") + obj)
+    item = _ttlv(0x42000F, 1, _ttlv(0x42005C, 5, struct.pack("!I", 3)) + payload)
+    return _ttlv(0x420078, 1, hdr + item), val
+
+
+def large_frames(run, quick):
+    """Requests of every size class around the receive buffer (4096) and around one MiB, each followed by an ordinary request
+    on the same connection, under whole / 4096-byte / odd chunkings: one answer each, the second one normal.  Decodable ones
+    (Register of an opaque object) up to 64 KiB in the quick tier; beyond one MiB a frame with junk appended inside (the
+    decoder rejects it quickly) - a legal request of that size costs the library's decoder tens of seconds."""
+    drv = D.EngineDriver(intern=E.new_interner())
+    cert = S.make_cert(1, "client")
+    traces = []
+    try:
+        query = A.encode(A.build_request(D.one("Query", {}), drv.intern), A.KV((1, 2)))
+        small, val = register_opaque_frame(24)
+        drv.intern.define("op24", val)
+        ref = A.encode(A.build_request(D.one("Register", {"otype": "OpaqueData", "attrs": [], "obj": {"type": "OpaqueData", "val": "op24"}}),
+                                       drv.intern, now=None), A.KV((1, 2)))
+        if small != ref:
+            raise common.MachineryFailure("hand-assembled Register frame differs from the library's encoding")
+        frames = [("reg", n, register_opaque_frame(n)[0]) for n in [4000, 4096 - 160, 4097, 8192, 65536] + ([] if quick else [1048576 + 4096])]
+        for n in [1048576 - 512, 1048576 + 8, 1048576 + 4096] + ([] if quick else [3 * 1048576]):
+            frames.append(("junk", n, reframe(query + bytes((i * 13 + 1) % 256 for i in range(n - len(query))))))
+        for kind, n, frame in frames:
+            want = "InvalidMessage" if decoder_rejects(frame) else "Success"
+            for plan in (None, [4096] * (len(frame) // 4096 + 2) + [100000], [8, 1, 4095, 4097, 3, 10 ** 7]):
+                data = frame + query
+                conn = S.FakeConn(data, cert=cert, plan=list(plan) if plan else None)
+                spy = S.EngineSpy(drv.engine, log=conn.log)
+                esc = S.run_session(spy, conn)
+                kinds = [classify(x, drv.intern)[0] for x in conn.sent]
+                run.case(("large", kind, n, "whole" if plan is None else plan[0], tuple(kinds[:4])))
+                traces.append(ST.make("L%s%d-%s" % (kind, n, "w" if plan is None else plan[0]), CLIENT_CFG, data, [], conn, drv.intern))
+                if esc or kinds != [want, "Success"]:
+                    run.violation("C12_large_request", {"size": "over-1MiB" if len(frame) > 1048576 else "under", "answers": kinds[:4]},
+                                  {"frame_length": len(frame), "decodable": want == "Success", "chunking": "whole" if plan is None else plan[:6],
+                                   "answers": kinds[:20], "number_of_answers": len(kinds), "escaped": esc})
+        run.traces += len(traces)
+    finally:
+        drv.close()
+    ST.judge(run, traces, name="c12large", owners=("C12",))
+
+
 def check(run, tier):
     quick = tier == "quick"
     nfr = 2 if quick else 3
@@ -419,10 +479,22 @@ def check(run, tier):
         run.case(("mutation-response", k))
     # every response seen: well-formed TTLV + envelope, by TLC
     recs = [{"id": "r%d" % i, "kind": "response", "bytes": b, "reqver": -1} for i, b in enumerate(samples)]
+    # request frames the session took (executed, or answered with anything but Invalid Message): the independent envelope
+    # rule - batch count = number of batch items - must hold for them (KmipEnvelope.tla RequestCountFails)
+    taken = [x for f in fz for x in f["taken"]]
+    tby = {x["id"]: x for x in taken}
+    recs += taken
+    run.extra["request_frames_taken_checked_against_envelope"] = len(taken)
     fails, r2 = TV.validate(recs, name="c12")
     run.add_tlc(r2, "TraceTTLV(c12): %d responses, %d bytes" % (len(recs), sum(len(x["bytes"]) for x in recs)))
     for rid, fl in fails.items():
+        if rid in tby:
+            x = tby[rid]
+            run.violation("C12_executed_undecodable", {"fails": sorted(fl)[:2], "executed": x["executed"]},
+                          {"request": x["bytes"].hex(), "fails": fl, "engine_entered": x["executed"], "answer": x["cls"]})
+            continue
         b = recs[int(rid[1:])]["bytes"]
         run.violation("C12_response_not_wellformed", {"fails": sorted(fl)[:3]}, {"response": b.hex(), "fails": fl})
     run.sample({"plan": plans[len(plans) // 2]["plan"], "prescribed_responses": plans[len(plans) // 2]["sent"]})
     max_size(run)
+    large_frames(run, quick)
